@@ -300,10 +300,12 @@ def rule_partial_sort(F, R):
             kexpr = None
             # form 1: buffer.begin() + k
             if nth["k"] in ("bin", "call") and (nth.get("op") == "+"):
-                base = skip(nth["c"][0])
-                if base["k"] == "call" and callee(base).split("::")[-1] == "begin":
-                    buf = pp(obj(base))
-                    kexpr = nth["c"][1]
+                for bi in (0, 1):       # operand order of a built-in `+` is canonicalised, not the source's
+                    base = skip(nth["c"][bi])
+                    if base["k"] == "call" and callee(base).split("::")[-1] == "begin":
+                        buf = pp(obj(base))
+                        kexpr = nth["c"][1 - bi]
+                        break
             if buf is not None:
                 # reads of buf(...) after the call in the same function
                 cw = f.cfg.where_enclosing(c)
